@@ -105,6 +105,10 @@ func NewDispatcher(option DispatcherOption) *dispatcher {
 	if size < 1024 {
 		zoneSize = 8
 	}
+	// 如果size比zone数量还小，则减少zone，避免每个zone的容量为0（lru中0表示无限制）
+	if size < zoneSize {
+		zoneSize = size
+	}
 
 	// 按zoneSize与size创建二维缓存，存放的是LRU缓存实例
 	lruSize := size / zoneSize
